@@ -2,6 +2,10 @@
 is built from /repo's working tree, budgets, and the static evidence fields."""
 
 BUILD_VH = [{"cmd": ["cargo", "build", "--release", "--offline", "-p", "vh"]}]
+BUILD_GLAS_PLAIN = [{"cmd": ["cargo", "build", "--release", "--offline", "-p", "glas"], "cwd": "$REPO", "env": {"CARGO_TARGET_DIR": "/verif/target/glas-plain"}}]
+BUILD_GLAS_VERIF = [{"cmd": ["cargo", "build", "--release", "--offline", "-p", "glas", "--features", "verif"], "cwd": "$REPO", "env": {"CARGO_TARGET_DIR": "/verif/target/glas-verif"}}]
+GLAS_PLAIN = "/verif/target/glas-plain/release/glas"
+GLAS_VERIF = "/verif/target/glas-verif/release/glas"
 BUILD_VTEXT = [{"cmd": ["cargo", "build", "--release", "--offline", "-p", "vtext"]}]
 
 PROPS = {
@@ -234,7 +238,9 @@ PROPS = {
     },
     "C13": {
         "bin": "m_text",
-        "build": BUILD_VTEXT,
+        "engines": [{"bin": "m_text", "share": 1, "build": BUILD_VTEXT},
+                    {"bin": "m_lsp", "share": 1, "args": ["--glas-bin", GLAS_PLAIN], "build": BUILD_VH + BUILD_GLAS_PLAIN}],
+        "build": [],
         "level": "exploration",
         "budget": {"quick": 12, "thorough": 300},
         "timeout": {"quick": 900, "thorough": 7200},
@@ -246,6 +252,25 @@ PROPS = {
         "assumptions": [
             "the per-notification loop of Server::on_did_change itself (several changes per notification, line map re-read between changes, JSON layer) is exercised by the black-box engine m_lsp (C13 second half, see evidence counters prefixed bb_)",
             "reference model: vh::lspmodel::Doc, written from the LSP specification (lines end at LF or CRLF; columns in UTF-16 code units)",
+        ],
+    },
+    "C15": {
+        "bin": "m_lsp",
+        "args": ["--glas-bin", GLAS_PLAIN],
+        "build": BUILD_VH + BUILD_GLAS_PLAIN,
+        "level": "fault_enumeration",
+        "budget": {"quick": 30, "thorough": 900},
+        "timeout": {"quick": 1500, "thorough": 14400},
+        "death_is_violation": False,
+        "rule": ("message sequences of 5-60 LSP notifications/requests over 1-3 documents against a fresh real `glas --stdio` process per sequence (release binary built from /repo): didOpen (project files, nested new file, file outside any project, "
+                 "gleam.toml, untitled:/git: URIs, duplicates, re-open after close), didChange (valid; line beyond EOF by one and far; column beyond line by one and far; u32::MAX; inside a surrogate pair; start>end; 2-4 changes with an invalid one among them; "
+                 "full replacement; closed or never-opened URI), didClose, didSave, didChangeWatchedFiles (existing, deleted, directory, FIFO, toml), every request kind with valid/invalid positions and ranges, rename with good and bad names. "
+                 "Half the sequences are sent stepwise (a round trip after every message attributes a death), half pipelined. Non-trivial = at least one hostile message; distinct by FNV-1a of the sequence."),
+        "assumptions": [
+            "oracle: process alive at the end; every request id answered exactly once (barrier 25 s, then deadlock classification by flat CPU + unanswered probe, else inconclusive); every document's final server text (glas/syntaxTree) lies in the model's acceptable set: "
+            "exactly the model text if all edits were valid; after an invalid edit any of forgotten / edit dropped / LSP-spec clamped application",
+            "unknown methods and malformed JSON are the transport library's contract and are not sent",
+            "the `gleam` executable is absent (GLEAM_PATH points nowhere): the server runs without its interop child",
         ],
     },
 }
